@@ -52,9 +52,10 @@ def main() -> int:
     try:
         patch = os.path.join(a.src, 'patch.diff')
         demo = os.path.join(a.src, 'demo_%s.py' % a.pid)
-        shutil.copy(demo, os.path.join(wt, 'demo.py'))
+        dname = os.path.basename(demo)
+        shutil.copy(demo, os.path.join(wt, dname))
         env = dict(os.environ, PYTHONPATH=wt, PYTHONHASHSEED='0')
-        d0 = sh(['/venv/bin/python', 'demo.py'], cwd=wt, env=env, timeout=1800)
+        d0 = sh(['/venv/bin/python', dname], cwd=wt, env=env, timeout=1800)
         out['demo_without_change'] = {'exit': d0.returncode, 'tail': (d0.stdout + d0.stderr)[-400:]}
         ap_ = sh(['git', '-C', wt, 'apply', '--whitespace=nowarn', patch])
         out['patch_applies_on_head'] = ap_.returncode == 0
@@ -62,7 +63,7 @@ def main() -> int:
             out['apply_error'] = ap_.stderr[-300:]
             print(json.dumps(out, indent=1))
             return 1
-        d1 = sh(['/venv/bin/python', 'demo.py'], cwd=wt, env=env, timeout=1800)
+        d1 = sh(['/venv/bin/python', dname], cwd=wt, env=env, timeout=1800)
         out['demo_with_change'] = {'exit': d1.returncode, 'tail': (d1.stdout + d1.stderr)[-600:]}
         if a.tests:
             t0 = time.time()
@@ -75,7 +76,7 @@ def main() -> int:
         sd = os.path.join(ROOT, 'seeded', name)
         os.makedirs(sd, exist_ok=True)
         shutil.copy(patch, os.path.join(sd, 'patch.diff'))
-        shutil.copy(demo, os.path.join(sd, 'demo.py'))
+        shutil.copy(demo, os.path.join(sd, dname))
         if not a.skip_check:
             t0 = time.time()
             c = subprocess.run([os.path.join(ROOT, 'check'), a.pid, '--tier', a.check_tier], capture_output=True, text=True, cwd=ROOT, env=env)
